@@ -256,11 +256,18 @@ func init() {
 			ks := keyer{}
 			for _, a := range c.P.Writes(sz) {
 				b, ok := a.Val.(*ssa.BinOp)
-				okV := ok && b.Op == token.EQL && IsLoadOf(edmid)(b.X) && IsConstInt(dv)(b.Y)
+				okV := ok && b.Op == token.EQL && ((IsLoadOf(edmid)(b.X) && IsConstInt(dv)(b.Y)) || (IsLoadOf(edmid)(b.Y) && IsConstInt(dv)(b.X)))
 				c.Check(okV, ks.key("send-flag-value@"+c.P.FuncName(a.Fn)), c.Pos(a.Instr), "sendZeroChecksum <- peerParam.edmid == DTLS", "sendZeroChecksum set from something other than the peer's parameter")
 				// the parameter comes from the inbound chunk (function parameter), not from local state
 				if okV {
-					ld := unconv(b.X).(*ssa.UnOp)
+					ev := b.X
+					if _, isK := unconv(ev).(*ssa.Const); isK {
+						ev = b.Y // the comparison may be written either way round
+					}
+					ld, isLd := unconv(ev).(*ssa.UnOp)
+					if !isLd {
+						continue
+					}
 					root := addrRoot(ld.X)
 					fromInbound := false
 					switch r := root.(type) {
@@ -295,7 +302,7 @@ func init() {
 					nr++
 				}
 			}
-			c.Check(nr == 1, "send-path-reads-send-flag", c.P.Pos(mp.Pos()), "marshalPacket consults sendZeroChecksum", "marshalPacket no longer consults sendZeroChecksum")
+			c.Check(nr >= 1, "send-path-reads-send-flag", c.P.Pos(mp.Pos()), "marshalPacket consults sendZeroChecksum", "marshalPacket no longer consults sendZeroChecksum")
 		}})
 
 	register(&Rule{ID: "C13.R4", Props: []string{"C13", "C04"}, Engine: "E3",
